@@ -1456,6 +1456,13 @@ theorem light_exchange_truthful (best : Nat) (lm : Nat → Nat) (store main : Na
     | none =>
       exact findAncestor_none store main _ hf (lm a) (List.mem_map_of_mem ha) a (hc.stored a (lm a) hshared) hshared
 
+/-- An anchor IS shared (test): chains that agree up to height 515; the answered exchange names the highest shared
+anchor 504 with the local id there. -/
+example :
+    lightExchange true 520 (fun n => n + 1)
+      (fun h => if 1 ≤ h ∧ h ≤ 516 then some (h - 1) else if 2517 ≤ h then some (h - 2001) else none)
+      (fun n => if n ≤ 515 then some (n + 1) else some (n + 2001)) = some (some (505, 504)) := by decide
+
 /-- What makes a list of light-scan replies *truthful* for the finder: every block it names is, at the named
 height, the block of the local main chain and of the remote main chain; and "none" is said only when the
 lowest anchor is not shared. -/
@@ -1610,6 +1617,62 @@ theorem ancestor_highest_over_exchange_partial : HighestOverExchange true := by
   · intro j hj1 hj2 hs
     exact h3 j hj1 hj2 ((probeX_same_iff hc j hj2).mpr hs)
 
+/-- The hypotheses of `ancestor_highest_over_exchange_partial` are satisfiable and its conclusion is about a real
+run of the model (test): chains of 521 and more blocks that agree up to height 10 only — below the lowest anchor
+24. The answered exchange says "none" (no anchor shared), the finder probes 11, 5, 8, 9, 10 and hands on
+`(id 11, height 10)`, the highest shared block. -/
+example :
+    let lm : Nat → Nat := fun n => n + 1
+    let main : Nat → Option Nat := fun n => if n ≤ 10 then some (n + 1) else some (n + 2001)
+    let store : Nat → Option Nat := fun h =>
+      if 1 ≤ h ∧ h ≤ 11 then some (h - 1) else if 2012 ≤ h then some (h - 2001) else none
+    Chains 520 lm store main ∧
+    lightExchange true 520 lm store main = some none ∧
+    finderId false 520 531 (localOf 520 lm) [none] (probeX 520 lm main) = .ancestor 11 10 := by
+  intro lm main store
+  have hc : Chains 520 lm store main := by
+    constructor
+    · intro n; simp [lm]
+    · intro n h hm
+      simp only [main] at hm
+      split at hm
+      · simp at hm; subst hm; simp [store]; omega
+      · simp at hm; subst hm
+        have h1 : ¬ (n + 2001 ≤ 11) := by omega
+        have h2 : 2012 ≤ n + 2001 := by omega
+        simp [store, h1, h2]
+    · intro a n ha hs
+      simp only [store, lm] at hs
+      have h1 : 1 ≤ a + 1 ∧ a + 1 ≤ 11 ∨ ¬ (1 ≤ a + 1 ∧ a + 1 ≤ 11) := Classical.em _
+      rcases h1 with h1 | h1
+      · simp [h1] at hs; omega
+      · have h2 : ¬ 2012 ≤ a + 1 := by omega
+        simp [h2] at hs
+        omega
+    · intro i _; simp only [main]; split <;> rfl
+    · intro i j hij hj hm
+      simp only [main, lm] at hm ⊢
+      by_cases h5 : j ≤ 10
+      · have : i ≤ 10 := by omega
+        simp [this]
+      · simp [h5] at hm
+  refine ⟨hc, by decide, ?_⟩
+  have hla : lastAnchorOf 520 = 24 := by decide
+  have hs : ∀ i, i ≤ 10 → probeX 520 lm main i = .same := by
+    intro i hi
+    have h1 : i ≤ 520 := by omega
+    simp [probeX, localOf, probeOf, hbnRecv, h1, hi, main, lm]
+  have hd : probeX 520 lm main 11 = .diff := by
+    simp [probeX, localOf, probeOf, hbnRecv, main, lm]
+  have hbs : binarySearch (probeX 520 lm main) 0 23 none = .ok (some 10) := by
+    rw [binarySearch]; simp [hd]
+    rw [binarySearch]; simp [hs 5 (by omega)]
+    rw [binarySearch]; simp [hs 8 (by omega)]
+    rw [binarySearch]; simp [hs 9 (by omega)]
+    rw [binarySearch]; simp [hs 10 (by omega)]
+    rw [binarySearch]; simp
+  simp [finderId, lightAcceptId, hla, fullscan, predU64, hbs, localOf, lm]
+
 /-- **The full clause is FALSE on the pinned code when the exchange fails** (known finding
 C17-ancestor-failure-read-as-none): `AncestorReceiver` turns every status but OK — here ABORTED, the
 serving node's chain service did not answer in time — into the same `Ancestor: nil` as a genuine "none".
@@ -1763,6 +1826,47 @@ example :
     delivered (run (St.init ⟨1, 2, 2, 2⟩ ⟨10, 9, 4⟩ 6 2) es).2 = [⟨11, 10, 5⟩, ⟨12, 11, 6⟩] := by
   decide
 
+/-- `HeightBound` and `ParentBound` are satisfiable together on that session (test). -/
+example :
+    let es : List Ev := [.hashSet 5 [11, 12], .sched, .chunk 0 false [⟨11, 10, 5⟩], .chunk 1 false [⟨12, 11, 6⟩],
+                         .addRsp 5 11 false false]
+    HeightBound es ∧ ParentBound es ⟨10, 9, 4⟩ := by
+  intro es
+  have ann : ∀ n h, Announced es n h → (n = 5 ∧ h = 11) ∨ (n = 6 ∧ h = 12) := by
+    intro n h ⟨st, hs, i, hmem, hi, hsum⟩
+    simp [es] at hmem
+    obtain ⟨rfl, rfl⟩ := hmem
+    match i, hi with
+    | 0, hi => simp at hi; subst hi; left; omega
+    | 1, hi => simp at hi; subst hi; right; omega
+    | i + 2, hi => simp at hi
+  constructor
+  · intro peer err blocks hm b hbm n hann
+    simp [es] at hm
+    rcases hm with ⟨_, _, rfl⟩ | ⟨_, _, rfl⟩
+    · simp at hbm; subst hbm
+      rcases ann n _ hann with ⟨rfl, _⟩ | ⟨_, h⟩
+      · rfl
+      · simp at h
+    · simp at hbm; subst hbm
+      rcases ann n _ hann with ⟨_, h⟩ | ⟨rfl, _⟩
+      · simp at h
+      · rfl
+  · intro peer err blocks hm b hbm n hann
+    simp [es] at hm
+    rcases hm with ⟨_, _, rfl⟩ | ⟨_, _, rfl⟩
+    · simp at hbm; subst hbm
+      rcases ann n _ hann with ⟨rfl, _⟩ | ⟨_, h⟩
+      · exact ⟨fun _ => rfl, fun h' hlt _ => by simp at hlt⟩
+      · simp at h
+    · simp at hbm; subst hbm
+      rcases ann n _ hann with ⟨_, h⟩ | ⟨rfl, _⟩
+      · simp at h
+      · refine ⟨fun h => by simp at h, fun h' _ ha => ?_⟩
+        rcases ann _ _ ha with ⟨_, rfl⟩ | ⟨h6, _⟩
+        · rfl
+        · simp at h6
+
 /-- **Without the chained announcement the pinned code hands over a block that is not a child of the previous
 one — with genuine blocks only** (known finding C17-unlinked-announcement-delivered). Ancestor id 10 at height
 4; the sync peer announces ids 11, 12 for heights 5, 6, where 12 is a genuine height-6 block of ANOTHER branch
@@ -1794,5 +1898,13 @@ theorem delivery_linked_needs_chained_announcement :
       | i + 2, hi => simp at hi
   have := hall ⟨1, 2, 2, 2⟩ ⟨10, 9, 4⟩ 6 2 es hb 0 ⟨11, 10, 5⟩ ⟨12, 77, 6⟩ (by decide) (by decide)
   simp at this
+
+/-- **Nothing beyond the target is handed over**, for every event list, when no hash set announces a height
+above the target (the hash fetcher never does: `hash_sets_contiguous`, `h'.lastNo ≤ h.target`). Together with
+`success_only_with_whole_range`: a successful session handed over exactly `ancestor+1 .. target`. -/
+theorem delivery_within_target (cfg : Cfg) (anc : Blk) (target npeers : Nat) (es : List Ev)
+    (hb : HeightBound es) (hann : ∀ n h, Announced es n h → n ≤ target) (k : Nat) (b : Blk)
+    (h : (delivered (run (St.init cfg anc target npeers) es).2)[k]? = some b) : b.no ≤ target :=
+  hann _ _ (delivery_order cfg anc target npeers es hb k b h).2
 
 end Aergo.Props.C17
